@@ -2,8 +2,8 @@
    unit, list, prod, sumbool, sumor map to OCaml's; nat, positive, N, Z stay
    the extracted inductives (no Extract Constant of our own). *)
 Require Import ExtrOcamlBasic.
-Require Import Tok TokGrammar CborSpec CborEnc CborDec CborParse Utf8 JsonEnc Pretty EncAccept JsonFloat JsonDec JsonParse Reader Writer Pump GoVal Marshal FloatConv Unmarshal Autogen.
+Require Import Tok TokGrammar CborSpec CborEnc CborDec CborParse Utf8 JsonEnc Pretty EncAccept JsonFloat JsonDec JsonParse Reader Writer ReuseFault Pump GoVal Marshal FloatConv Unmarshal Autogen.
 Extraction Language OCaml.
 Extraction "model.ml" Z.add Z.mul Z.div_eucl Z.of_nat Z.to_nat Z.eqb Z.ltb
    flatten unflatten enc_tokens rfc_enc dec_run parse_item
-   jenc_tokens penc_tokens ctx_run key_cbor key_json json_repr valid_utf8 coerce_utf8 jdec_run jparse_item run_ops run_ops_abs slick_init astream_init cbor_write_faulty json_write_faulty pump_j2c pump_c2j pump_c2c pump_j2j marshal_top unmarshal_top explore explore_matches_spec autogen_entry selected.
+   jenc_tokens penc_tokens ctx_run key_cbor key_json json_repr valid_utf8 coerce_utf8 jdec_run jparse_item run_ops run_ops_abs slick_init astream_init cbor_write_faulty json_write_faulty history jhistory enc_init jenc_init pump_j2c pump_c2j pump_c2c pump_j2j marshal_top unmarshal_top explore explore_matches_spec autogen_entry selected.
